@@ -359,9 +359,9 @@ def build(ctx):
         final(self).view() =~~= rm_spec(old(self).view(), *peer_id, reason), // @OBL ActivePeersInner::remove::transition [C04,C09] remove(p, reason): if present -> entry removed, that connection closed, exactly one LostPeer(p, reason) appended; if absent -> nothing changes
 ''', '\n        broadcast use axiom_peer_id_key;\n', [ghost_close_log])
 
-    t += _fn_with(C, CM, 'impl ActivePeersInner :: fn remove_with_stable_id', 'ActivePeersInner::remove_with_stable_id', ['C04', 'C05'], None, '''
+    t += _fn_with(C, CM, 'impl ActivePeersInner :: fn remove_with_stable_id', 'ActivePeersInner::remove_with_stable_id', ['C04', 'C05', 'C09'], None, '''
     ensures
-        final(self).view() =~~= rm_sid_spec(old(self).view(), peer_id, stable_id, reason), // @OBL ActivePeersInner::remove_with_stable_id::transition [C04,C05] removal only if the stored connection is the one that ended (same stable id); otherwise nothing at all changes
+        final(self).view() =~~= rm_sid_spec(old(self).view(), peer_id, stable_id, reason), // @OBL ActivePeersInner::remove_with_stable_id::transition [C04,C05,C09] removal only if the stored connection is the one that ended (same stable id); otherwise nothing at all changes
 ''', '\n        broadcast use axiom_peer_id_key;\n', [normalise_entry_moves, ghost_close_log])
 
     t += C.fn(CM, 'impl ActivePeersInner :: fn send_event', 'ActivePeersInner::send_event', ['C04'], spec='''
@@ -435,7 +435,7 @@ impl ActivePeers {
     t += C.fn(CM, W + 'remove_with_stable_id', 'ActivePeers::remove_with_stable_id', ['C04', 'C05'], sig_rewrites=[('&self', '&mut self')], spec="""
     ensures
         final(self).1@ == old(self).1@ + 1, // @OBL ActivePeers::remove_with_stable_id::one_critical_section [C04,C05] the whole operation is ONE critical section: exactly one lock acquisition (no check-then-act across two)
-        final(self).0.view() =~~= rm_sid_spec(old(self).0.view(), peer_id, stable_id, reason), // @OBL ActivePeers::remove_with_stable_id::delegates [C04,C05] remove_with_stable_id() is exactly the inner transition, under one write-lock acquisition
+        final(self).0.view() =~~= rm_sid_spec(old(self).0.view(), peer_id, stable_id, reason), // @OBL ActivePeers::remove_with_stable_id::delegates [C04,C05,C09] remove_with_stable_id() is exactly the inner transition, under one write-lock acquisition
 """)
     t += C.fn(CM, W + 'add', 'ActivePeers::add', ['C04', 'C05', 'C03'], ret='r', sig_rewrites=[('&self', '&mut self')], spec="""
     ensures
